@@ -298,6 +298,77 @@ Example C20_graph_reach_example :
     map fst G = [0; 2]%nat.
 Proof. exact reach_example. Qed.
 
+(* ---- Insert through introduceBranch (C20/GraphInvBranch.v; UNBOUNDED) -----------------------
+   The voted block h has no vote-node and findContainingNodes returned the non-empty list ds: a new
+   vote-node is spliced in at h, the ancestor edges of the ds are cut at h, the new node's
+   cumulative vote is the union of theirs plus the new vote.  Both invariants are preserved, for
+   every tree and graph, under
+     branch_sound    : every d in ds is a vote-node that passes the inDirectAncestry test for h, h is
+                       above d and the vote-node ending d's edge is above h;
+     branch_complete : every vote-node below h is in ds or has its nearest vote-node at or below h. *)
+From C20 Require Import GraphInvBranch.
+
+Theorem C20_graph_insert_branch : forall t lbl G heads h b ins ds,
+  chain_inv t G -> cum_ok t G ins ->
+  eget h G = None -> find_containing t lbl G heads h = Some ds -> ds <> nil ->
+  branch_sound t G ds h -> branch_complete t G ds h ->
+  (forall p, In p ins -> exists e, eget (fst p) G = Some e) ->
+  let '(G', heads') := insert t lbl G heads h b in
+  heads' = heads /\ chain_inv t G' /\ cum_ok t G' ((h, b) :: ins) /\
+  (exists e, eget h G' = Some e) /\
+  (forall p, In p ((h, b) :: ins) -> exists e, eget (fst p) G' = Some e) /\
+  (forall y ey, eget y G = Some ey -> exists e2, eget y G' = Some e2).
+Proof. exact insert_branch. Qed.
+Print Assumptions C20_graph_insert_branch.
+
+(* branch_sound is not an assumption about the mirror: in a graph whose ancestor lists are
+   prefixes of the real ancestor chains (anc_wf) it holds for whatever findContainingNodes
+   returns, and EVERY Insert (whatever path it takes) preserves anc_wf. *)
+Theorem C20_graph_branch_sound : forall t lbl G heads h ds,
+  anc_wf t G -> find_containing t lbl G heads h = Some ds -> branch_sound t G ds h.
+Proof. exact branch_sound_of_wf. Qed.
+Print Assumptions C20_graph_branch_sound.
+
+Theorem C20_graph_insert_anc_wf : forall t lbl G heads h b,
+  anc_wf t G -> anc_wf t (fst (insert t lbl G heads h b)).
+Proof. exact insert_anc_wf. Qed.
+Print Assumptions C20_graph_insert_anc_wf.
+
+(* [reach_full] = [reach] + the introduceBranch step, whose only semantic premise is
+   branch_complete (the completeness of the walk of findContainingNodes from the heads).  In all
+   those states the invariants, the tracker relation and anc_wf hold, hence every vote-node carries
+   the specification's weight in both phases. *)
+Theorem C20_graph_reach_full_invariants : forall t lbl G heads eqv S ins,
+  reach_full t lbl G heads eqv S ins ->
+  chain_inv t G /\ cum_ok t G ins /\ (exists e0, eget 0%nat G = Some e0) /\
+  (forall p, In p ins -> exists e, eget (fst p) G = Some e) /\
+  (forall ph, (ph < 2)%nat -> tracker_ok t ph (S ph) eqv ins) /\
+  anc_wf t G.
+Proof. exact reach_full_invariants. Qed.
+Print Assumptions C20_graph_reach_full_invariants.
+
+Theorem C20_graph_reach_full_node_weights : forall t lbl ws G heads eqv S ins,
+  reach_full t lbl G heads eqv S ins ->
+  forall y e ph, (ph < 2)%nat -> eget y G = Some e ->
+  bits_weight ws (g_cum e) eqv ph = weight t ws (S ph) y.
+Proof. exact reach_full_node_weights. Qed.
+Print Assumptions C20_graph_reach_full_node_weights.
+
+Theorem C20_graph_reach_in_reach_full : forall t lbl G heads eqv S ins,
+  reach t lbl G heads eqv S ins -> reach_full t lbl G heads eqv S ins.
+Proof. exact reach_sub. Qed.
+Print Assumptions C20_graph_reach_in_reach_full.
+
+(* non-vacuity: an append, then a vote for a block inside the new edge (introduceBranch) *)
+Example C20_graph_reach_full_example :
+  let t := [0; 1]%nat in
+  exists G heads eqv S ins, reach_full t (fun b => b) G heads eqv S ins /\
+    S 0%nat = [mkVote 0 2 0; mkVote 1 1 0]%nat /\ ins = [(1, 2); (2, 0)]%nat /\
+    map fst G = [0; 2; 1]%nat /\
+    eget 1%nat G = Some (mkE [0%nat] [2%nat] [2; 0]%nat) /\
+    eget 2%nat G = Some (mkE [1%nat] [] [0%nat]).
+Proof. exact reach_full_example. Qed.
+
 (* for all trees, weights and votes: a bitfield whose bits (merged with the equivocations) are the
    supporters of a block weighs Votes.weight of that block *)
 Theorem C20_bitfield_weight_is_weight : forall t ws S b bits eqv ph,
